@@ -5,6 +5,7 @@ import (
 	"crypto/rand"
 	"fmt"
 	"io"
+	"sync/atomic"
 
 	"github.com/cloudflare/circl/group"
 	"github.com/cloudflare/circl/oprf"
@@ -56,6 +57,27 @@ func (g *registry) changed() (string, []byte, []byte, bool) {
 	return "", nil, nil, false
 }
 
+// setupFailure carries what a world builder saw when an honest setup step failed.
+type setupFailure struct {
+	typ, step, changed string
+	before, after      []byte
+}
+
+var lastSetup atomic.Value
+
+// setupStep runs one honest setup call of a world builder: afterwards every value tracked so far must be
+// unchanged; an error is fatal for the builder.
+func (w *seqWorld) setupStep(step string, err error) {
+	if name, before, after, ch := w.reg.changed(); ch {
+		lastSetup.Store(&setupFailure{typ: w.typ, step: step, changed: name, before: before, after: after})
+		panic("setup: tracked value changed after " + step)
+	}
+	if err != nil {
+		lastSetup.Store(&setupFailure{typ: w.typ, step: step})
+		panic("setup: " + step + ": " + err.Error())
+	}
+}
+
 type seqOp struct {
 	name string
 	run  func()
@@ -69,7 +91,12 @@ type seqWorld struct {
 
 func (m *c16) runSequence(mk func(r *core.Rand) *seqWorld, idx []int, r *core.Rand) {
 	c := m.c
-	w := mk(r)
+	var w *seqWorld
+	pan, pv, where := core.Guard(func() { w = mk(r) })
+	if pan || w == nil {
+		m.reportSetupFailure(pv, where)
+		return
+	}
 	var names []string
 	for step, i := range idx {
 		op := w.ops[i%len(w.ops)]
@@ -94,6 +121,20 @@ func (m *c16) runSequence(mk func(r *core.Rand) *seqWorld, idx []int, r *core.Ra
 		c.Class("call_pairs")
 	}
 	c.Distinctf("seq:%s:%v", w.typ, idx)
+}
+
+// reportSetupFailure: building the honest world failed. If a tracked value changed on the way, that is the
+// violation; otherwise the failure belongs to another property and the sequence is skipped.
+func (m *c16) reportSetupFailure(pv, where string) {
+	c := m.c
+	if se, ok := lastSetup.Load().(*setupFailure); ok && se != nil && se.changed != "" {
+		c.Violation("sequence:earlier-value-changed:"+se.typ+":"+stripIndex(se.changed), fmt.Sprintf("%s: %q changed while the honest setup ran (%s)", se.typ, se.changed, se.step),
+			map[string]any{"type": se.typ, "step": se.step, "before": core.Hex(se.before), "after": core.Hex(se.after)})
+		lastSetup.Store((*setupFailure)(nil))
+		return
+	}
+	c.Class("setup_failed_sequence_skipped")
+	c.Info("setup_failure_example", pv+" at "+where)
 }
 
 func stripIndex(s string) string {
@@ -123,10 +164,10 @@ func (m *c16) worlds() []func(r *core.Rand) *seqWorld {
 		w.reg.track("tokenKeyID argument", kid)
 		w.reg.track("Request().BlindedReq", st.Request().BlindedReq)
 		respA, err := iss.Evaluate(st.Request())
-		must(err)
-		respB, err := iss.Evaluate(st.Request())
-		must(err)
+		w.setupStep("first Issuer.Evaluate", err)
 		w.reg.track("response A", respA)
+		respB, err := iss.Evaluate(st.Request())
+		w.setupStep("second Issuer.Evaluate", err)
 		w.reg.track("response B", respB)
 		n := 0
 		var last tokens.Token
@@ -276,12 +317,13 @@ func (m *c16) worlds() []func(r *core.Rand) *seqWorld {
 		w.reg.track("RequestKey()", st.RequestKey())
 		w.reg.track("ClientKey()", st.ClientKey())
 		enc := clone(st.Request().Marshal())
-		respA, _, err := iss.Evaluate(enc)
-		must(err)
-		respB, _, err := iss.Evaluate(enc)
-		must(err)
 		w.reg.track("request bytes given to the issuer", enc)
+		w.reg.track("Request().Marshal() at creation", st.Request().Marshal())
+		respA, _, err := iss.Evaluate(enc)
+		w.setupStep("first Issuer.Evaluate(request bytes)", err)
 		w.reg.track("response A", respA)
+		respB, _, err := iss.Evaluate(enc)
+		w.setupStep("second Issuer.Evaluate(request bytes)", err)
 		w.reg.track("response B", respB)
 		att := type3.NewRateLimitedAttester(newMemCache())
 		n := 0
@@ -376,13 +418,44 @@ func (m *c16) worlds() []func(r *core.Rand) *seqWorld {
 		}
 		return w
 	}
-	return []func(r *core.Rand) *seqWorld{t1, t2, t5, t3, tb}
+	out := []func(r *core.Rand) *seqWorld{t1, t2, t5, t3, tb}
+	// request objects reused for several decodes: encodings handed out earlier must keep their contents
+	for _, rc := range reqCodecs() {
+		rc := rc
+		out = append(out, func(r *core.Rand) *seqWorld {
+			w := &seqWorld{typ: "reuse:" + rc.name, reg: &registry{}}
+			obj, _ := rc.mk()
+			wires := [][]byte{rc.gen(r, 0), rc.gen(r, 1), rc.gen(r, 9)}
+			for i, b := range wires {
+				w.reg.track(fmt.Sprintf("wire bytes %c", 'A'+i), b)
+			}
+			garbage := r.Bytes(40)
+			w.reg.track("garbage bytes", garbage)
+			n := 0
+			dec := func(b []byte) func() { return func() { obj.Unmarshal(b) } }
+			w.ops = []seqOp{
+				{"Unmarshal(wire A)", dec(wires[0])},
+				{"Unmarshal(wire B)", dec(wires[1])},
+				{"Unmarshal(wire C)", dec(wires[2])},
+				{"Unmarshal(garbage)", dec(garbage)},
+				{"Marshal()", func() { n++; w.reg.track(fmt.Sprintf("Marshal()#%d", n), obj.Marshal()) }},
+			}
+			return w
+		})
+	}
+	return out
 }
 
 func (m *c16) sequences() {
 	c := m.c
 	for wi, mk := range m.worlds() {
-		probe := mk(c.Rng("probe"))
+		var probe *seqWorld
+		if pan, pv, where := core.Guard(func() { probe = mk(c.Rng("probe")) }); pan || probe == nil {
+			if c.Next() {
+				m.reportSetupFailure(pv, where)
+			}
+			continue
+		}
 		nops := len(probe.ops)
 		// all ordered pairs, each preceded by nothing
 		for a := 0; a < nops; a++ {
